@@ -191,6 +191,12 @@ class Gen:
       cls.append("  def get%d(self) -> %s:\n    return self.%s\n" % (i, tvs[i], f[i]))
     i = r.randrange(n)
     cls.append("  def lst(self) -> list[%s]:\n    return [self.%s]\n" % (tvs[i], f[i]))
+    # properties typed by the class's type parameters: T, Optional[T], list[T]
+    j = r.randrange(n)
+    cls.append("  @property\n  def val(self) -> %s:\n    return self.%s\n" % (tvs[j], f[j]))
+    cls.append("  @property\n  def maybe(self) -> Optional[%s]:\n    return self.%s\n" % (tvs[-1], f[-1]))
+    if r.random() < 0.6:
+      cls.append("  @property\n  def items(self) -> list[%s]:\n    return [self.%s]\n" % (tvs[0], f[0]))
     if n >= 2:
       cls.append("  def rev(self):\n    return (%s)\n" % ", ".join("self.%s" % x for x in reversed(f)))
       cls.append("  def opt(self, flag: bool) -> Optional[%s]:\n    return self.%s if flag else None\n" % (tvs[-1], f[-1]))
@@ -200,6 +206,7 @@ class Gen:
     def mk(c, k, shift=0):
       return "%s(%s)" % (c, ", ".join(args[(j + shift) % 3][0] for j in range(k)))
     out.append("pv0 = %s\n" % mk("P0", n))
+    out.append("pv3 = %s\n" % mk("P0", n, 1))          # a second, differently parameterised instance
     out.append("pv1 = (%s if _cond() else %s)\n" % (mk("P0", n, 1), mk("P0", n, 2)))
     if n >= 2:
       # a subclass that fixes the first parameter and stays generic in the others
@@ -221,6 +228,30 @@ class Gen:
     out.append("pl = [pv0]\n")
     return "".join(out)
 
+  def nested_block(self):
+    """classes nested one and two levels deep, referenced as types by constants, attributes and return types; in
+    some programs a top-level class shares the simple name of a nested one."""
+    r = self.r
+    inner, leaf = r.choice([("Inner", "Leaf"), ("Item", "Leaf"), ("Inner", "Item")])
+    out = []
+    same_name_first = r.random() < 0.25
+    if same_name_first:
+      out.append("class %s:\n  top = %s\n" % (inner, self.expr(1)))
+    out.append("class Node0:\n"
+               "  class %s:\n    val = %s\n    def m(self):\n      return [self.val]\n" % (inner, self.expr(1)) +
+               "  class Mid:\n    class %s:\n      z = %s\n      def w(self) -> tuple[int, str]:\n        return (1, '')\n"
+               % (leaf, self.expr(1)) +
+               "  def __init__(self) -> None:\n    self.inner = Node0.%s()\n    self.leaves = [Node0.Mid.%s()]\n" % (inner, leaf) +
+               "  def mk(self) -> 'Node0.%s':\n    return Node0.%s()\n" % (inner, inner) +
+               "  def opt(self):\n    return (Node0.Mid.%s() if _cond() else None)\n" % leaf)
+    if not same_name_first and r.random() < 0.35:
+      out.append("class %s:\n  top = %s\n" % (r.choice([inner, leaf]), self.expr(1)))
+    out.append("def mk_inner() -> Node0.%s:\n  return Node0.%s()\n" % (inner, inner))
+    out.append("def mk_leaf():\n  return Node0.Mid.%s()\n" % leaf)
+    out.append("nx = Node0.%s()\nnl = Node0.Mid.%s()\nnd = {'k': Node0.%s()}\nnn = Node0()\n" % (inner, leaf, inner))
+    out.append("nk = Node0.%s\n" % inner)
+    return "".join(out)
+
   def program(self):
     r = self.r
     out = ["from typing import Any, Callable, Generic, NamedTuple, Optional, TypeVar, Union\n",
@@ -229,6 +260,8 @@ class Gen:
       out.append(self.klass(i))
     if r.random() < 0.55:
       out.append(self.generic_block())
+    if r.random() < 0.35:
+      out.append(self.nested_block())
     if r.random() < 0.2:
       out.append("class NT(NamedTuple):\n  a: int\n  b: %s\n" % self.annot(allow_cls=False))
       self.classes.append(("NT", 2))
@@ -406,6 +439,26 @@ def parse_stub(text, name):
                              options=parser.PyiOptions(python_version=(3, 12)))
 
 
+def short(n, mod="A"):
+  """class name relative to the module: A.Node.Inner -> Node.Inner."""
+  return n[len(mod) + 1:] if n.startswith(mod + ".") else n
+
+
+def ident(cn):
+  return cn.replace(".", "__")
+
+
+def all_classes(ast):
+  """{relative dotted name: pytd.Class} for the classes of the stub, nested ones included."""
+  out = {}
+  def walk(cs):
+    for c in cs:
+      out[short(c.name)] = c
+      walk(c.classes)
+  walk(ast.classes)
+  return out
+
+
 CONSTS = "\0consts"     # key of `classes` holding {class name: "A.<constant of that class>"}
 
 
@@ -423,7 +476,7 @@ def mk_expr(t, classes, depth=3):
     base = {"int": "0", "str": "''", "float": "0.5", "bool": "True", "bytes": "b''", "complex": "1j",
             "NoneType": "None", "None": "None", "object": "0", "list": "[]", "dict": "{}", "tuple": "()",
             "set": "set()", "type": "int"}
-    n0 = n.split(".")[-1]
+    n0 = short(n) if short(n) in classes else n.split(".")[-1]
     if n0 in base and n0 not in classes:
       return base[n0]
     if n0 in classes:
@@ -447,7 +500,7 @@ def mk_expr(t, classes, depth=3):
       return None
     return "(lambda %s: %s)" % (", ".join("q%d" % i for i in range(len(t.args))), e)
   if isinstance(t, pytd.GenericType):
-    b = t.base_type.name.split(".")[-1]
+    b = short(t.base_type.name) if short(t.base_type.name) in classes else t.base_type.name.split(".")[-1]
     ps = t.parameters
     if b in classes:
       return classes.get(CONSTS, {}).get(b)          # e.g. A.pv0 for a parameter of type P0[T, S]
@@ -456,7 +509,7 @@ def mk_expr(t, classes, depth=3):
       return None if e is None else "(lambda *q: %s)" % e
     if b == "type":
       if isinstance(ps[0], (pytd.NamedType, pytd.ClassType)):
-        n0 = ps[0].name.split(".")[-1]
+        n0 = short(ps[0].name) if short(ps[0].name) in classes else ps[0].name.split(".")[-1]
         return ("A." + n0) if n0 in classes else (n0 if n0 in ("int", "str", "float", "list", "dict") else None)
       return None
     es = [("" if isinstance(p, pytd.NothingType) else mk_expr(p, classes, depth - 1)) for p in ps]
@@ -532,7 +585,8 @@ def mro_subst(cls, classes, sub):
   todo = [(b, sub) for b in cls.bases]
   while todo:
     b, sb = todo.pop(0)
-    bn = (b.base_type.name if isinstance(b, pytd.GenericType) else getattr(b, "name", "")).split(".")[-1]
+    bn = (b.base_type.name if isinstance(b, pytd.GenericType) else getattr(b, "name", ""))
+    bn = short(bn) if short(bn) in classes else bn.split(".")[-1]
     if bn not in classes or classes[bn].name in seen:
       continue
     bc = classes[bn]
@@ -581,8 +635,8 @@ def call_expectation(sig, skip_self, classes, const_types, sub0=None):
     if p.optional:
       continue
     d = subst_tv(canon(p.type), sub0 or {})
-    if isinstance(p.type, pytd.GenericType) and p.type.base_type.name.split(".")[-1] in const_types:
-      actual = const_types[p.type.base_type.name.split(".")[-1]]
+    if isinstance(p.type, pytd.GenericType) and short(p.type.base_type.name) in const_types:
+      actual = const_types[short(p.type.base_type.name)]
     else:
       actual = all_tv_to(d, "int")
     if not unify(d, actual, binds):
@@ -609,7 +663,8 @@ def mro_of(cls, classes):
   todo = list(cls.bases)
   while todo:
     b = todo.pop(0)
-    n = getattr(b, "name", "").split(".")[-1]
+    n = getattr(b, "name", "")
+    n = short(n) if short(n) in classes else n.split(".")[-1]
     if n in classes and n not in seen:
       seen.add(n)
       out.append(classes[n])
@@ -631,7 +686,7 @@ def derive_downstream(stub_text):
   at most one constructible argument is called."""
   from pytype.pytd import pytd
   ast = parse_stub(stub_text, "A")
-  classes = {c.name.split(".")[-1]: c for c in ast.classes}
+  classes = all_classes(ast)
   consts = {}
   const_types = {}
   for c in ast.constants:
@@ -682,9 +737,9 @@ def derive_downstream(stub_text):
     all_owners = {}
     for k, ksub in chain:
       for a in k.constants:
-        all_owners.setdefault(a.name, []).append((k.name.split(".")[-1], decl_in(a.type, ksub)))
+        all_owners.setdefault(a.name, []).append((short(k.name), decl_in(a.type, ksub)))
     for k, ksub in chain:
-      kn = k.name.split(".")[-1]
+      kn = short(k.name)
       def declared(t):
         e = subst_tv(canon(t), ksub) if ksub is not None else canon(t)
         if isinstance(e, tuple) and e[:2] == ("G", "Final") and len(e) == 3:
@@ -766,14 +821,14 @@ def derive_downstream(stub_text):
           exp["r_" + n] = ("type", e, "A.%s(...)" % n)
         results.append(("q_r_" + n, "r_" + n, e if e is not None else ret, "A.%s(...)" % n, "r_" + n))
   for cn, c in classes.items():
-    if not public(cn):
+    if not all(public(x) for x in cn.split(".")):
       continue
-    add("k_" + cn, "A." + cn, None, "A." + cn, kind="ref")
-    exp["k_" + cn] = ("type", ("G", "type", cn), "A." + cn)
+    add("k_" + ident(cn), "A." + cn, None, "A." + cn, kind="ref")
+    exp["k_" + ident(cn)] = ("type", ("G", "type", cn), "A." + cn)
     args = ctor_args(c, classes_env, 2)
     if args is None:
       continue
-    add("i_" + cn, "A.%s(%s)" % (cn, ", ".join(args)), None, "A.%s(...)" % cn, kind="call", member=cn, built=True)
+    add("i_" + ident(cn), "A.%s(%s)" % (cn, ", ".join(args)), None, "A.%s(...)" % cn, kind="call", member=cn, built=True)
     if class_tparams(c):
       # the instance's parameters follow from the constructor arguments the oracle passes (type variables get int)
       own = ["~" + t for t in class_tparams(c)]
@@ -789,14 +844,14 @@ def derive_downstream(stub_text):
               ok = ok and unify(d, all_tv_to(d, "int"), binds)
           if ok and all(t in binds for t in own):
             ct = ("G", cn) + tuple(binds[t] for t in own)
-            exp["i_" + cn] = ("type", ct, "A.%s(...)" % cn)
+            exp["i_" + ident(cn)] = ("type", ct, "A.%s(...)" % cn)
           break
         if init:
           break
-      results.append(("a_" + cn, "i_" + cn, ct, "A.%s(...)" % cn, "i_" + cn))
+      results.append(("a_" + ident(cn), "i_" + ident(cn), ct, "A.%s(...)" % cn, "i_" + ident(cn)))
     else:
-      exp["i_" + cn] = ("type", cn, "A.%s()" % cn)
-      results.append(("a_" + cn, "i_" + cn, cn, "A.%s()" % cn, "i_" + cn))
+      exp["i_" + ident(cn)] = ("type", cn, "A.%s()" % cn)
+      results.append(("a_" + ident(cn), "i_" + ident(cn), cn, "A.%s()" % cn, "i_" + ident(cn)))
   # probes inside values: module-level constants first, then call results and constructed instances
   for c in ast.constants:
     n = c.name.split(".")[-1]
@@ -842,7 +897,7 @@ def analyse_upstream(src, workdir):
   py = os.path.join(workdir, "A.py")
   with open(py, "w") as f:
     f.write(src)
-  opts = config.Options.create(py, python_version=(3, 12), module_name="A", pythonpath="",
+  opts = config.Options.create(py, python_version=(3, 12), typeshed=False, module_name="A", pythonpath="",
                                output=os.path.join(workdir, "A.pickled"), pickle_output=True)
   ret, pyi = io.generate_pyi(src, opts)
   with open(os.path.join(workdir, "A.pyi"), "w") as f:
@@ -855,12 +910,12 @@ def analyse_upstream(src, workdir):
 def analyse_downstream(src, workdir, transport):
   from pytype import config, io
   if transport == "text":
-    opts = config.Options.create(python_version=(3, 12), module_name="B", pythonpath=workdir)
+    opts = config.Options.create(python_version=(3, 12), typeshed=False, module_name="B", pythonpath=workdir)
   elif transport == "imports_map":
-    opts = config.Options.create(python_version=(3, 12), module_name="B",
+    opts = config.Options.create(python_version=(3, 12), typeshed=False, module_name="B",
                                  imports_map_items=[("A.pyi", os.path.join(workdir, "A.pyi"))])
   else:
-    opts = config.Options.create(python_version=(3, 12), module_name="B", use_pickled_files=True,
+    opts = config.Options.create(python_version=(3, 12), typeshed=False, module_name="B", use_pickled_files=True,
                                  imports_map_items=[("A.pyi", os.path.join(workdir, "A.pickled"))])
   ret, pyi = io.generate_pyi(src, opts)
   errs = [(e.name, e.line, str(e.message)[:200]) for e in ret.context.errorlog]
@@ -956,6 +1011,63 @@ def classify(name, m, want, g):
   return "type-differs"
 
 
+def compare_names(res, names, meta, exp, inferred, got, tainted, dropped, tr, suffix=""):
+  """holds every name of `names` (defined in the downstream stub `got`) to A's inference / A's stub; appends the
+  mismatches, classified, to res["issues"].  Returns the number of names compared."""
+  n_cmp = [0]
+  for name in names:
+    m = meta[name]
+    if name in tainted or name in dropped:
+      res["tainted"] += 1
+      continue
+    e_stub = exp.get(name)
+    e_inf = inferred.get(name)
+    g = got.get(name)
+    if e_stub is not None and e_stub[0] == "function":
+      n_cmp[0] += 1
+      res["kinds"]["function"] = res["kinds"].get("function", 0) + 1
+      bad = compare(e_stub, g)
+      if bad:
+        res["issues"].append({"transport": tr, "kind": "type-differs", "name": name, "source": m["what"],
+                              "what": "%s%s: upstream %s, downstream %s" % (m["what"], suffix, bad[0], bad[1])})
+      continue
+    if m.get("kind") == "ref" or (e_inf is None and e_stub is None):
+      if e_stub is not None:
+        n_cmp[0] += 1
+        bad = compare(e_stub, g)
+        if bad:
+          res["issues"].append({"transport": tr, "kind": "type-differs", "name": name, "source": m["what"],
+                                "what": "%s%s: upstream %s, downstream %s" % (m["what"], suffix, bad[0], bad[1])})
+      continue
+    n_cmp[0] += 1
+    k = "inferred" if e_inf is not None else "declared"
+    res["kinds"][k] = res["kinds"].get(k, 0) + 1
+    ok_inf = e_inf is not None and same_def(e_inf, g)
+    ok_stub = e_stub is not None and same_def(e_stub, g)
+    if ok_inf:
+      continue
+    if ok_stub:
+      # B has exactly the declared type; A's context-sensitive analysis of the same expression found another
+      # one (e.g. a more precise result of an unannotated function): not the hand-off's doing
+      if e_inf is not None:
+        res["inferred_differs_from_declared"] += 1
+      continue
+    if m.get("constructed") and e_stub is None:
+      # the oracle built this value / chose the arguments and the stub gives no closed declared type to hold B
+      # to: A sees the concrete arguments (int for a float parameter, literal precision, ...) and may
+      # legitimately be narrower than what the signature promises B
+      res["undecided_constructed"] = res.get("undecided_constructed", 0) + 1
+      continue
+    want = [e_inf, e_stub]
+    kind = classify(name, m, want, g)
+    wtxt = " / ".join(("inferred " if i == 0 else "declared ") + show(w[1]) for i, w in enumerate(want) if w is not None)
+    gtxt = "<name missing from B's stub>" if g is None else \
+        "%s %s" % (g[0], show(g[1]) if g[0] in ("type", "alias") else g[1:])
+    res["issues"].append({"transport": tr, "kind": kind, "name": name, "source": m["what"],
+                          "what": "%s%s: upstream %s, downstream %s" % (m["what"], suffix, wtxt, gtxt)})
+  return n_cmp[0]
+
+
 def check_pair(src_a, workdir, transports=TRANSPORTS):
   """Runs the full oracle for one upstream program.  Returns a dict with 'status' in {'ok', 'skip', 'violation'},
   'issues' (every mismatch, classified) and the concrete replay material (A with probes, B)."""
@@ -965,7 +1077,7 @@ def check_pair(src_a, workdir, transports=TRANSPORTS):
   os.makedirs(workdir, exist_ok=True)
   try:
     # 1. A alone, to learn its public surface
-    _, stub0 = io.generate_pyi(src_a, config.Options.create(python_version=(3, 12), module_name="A", pythonpath=""))
+    _, stub0 = io.generate_pyi(src_a, config.Options.create(python_version=(3, 12), typeshed=False, module_name="A", pythonpath=""))
     src_b, exp, meta = derive_downstream(stub0)
     # 2. A with the probe expressions appended: A's own inference for every probe; this is the stub B imports
     src_a2 = src_a + ("" if src_a.endswith("\n") else "\n") + upstream_probe_source(meta)
@@ -1022,60 +1134,35 @@ def check_pair(src_a, workdir, transports=TRANSPORTS):
     except Exception as e:  # pylint: disable=broad-except
       res.update(status="violation", transport=tr, kind="unparseable-stub", what=str(e)[:300])
       return res
-    n_cmp = 0
-    for name, m in meta.items():
-      if name in tainted or name in dropped:
-        res["tainted"] += 1
-        continue
-      e_stub = exp.get(name)
-      e_inf = inferred.get(name)
-      g = got.get(name)
-      if e_stub is not None and e_stub[0] == "function":
-        n_cmp += 1
-        res["kinds"]["function"] = res["kinds"].get("function", 0) + 1
-        bad = compare(e_stub, g)
-        if bad:
-          res["issues"].append({"transport": tr, "kind": "type-differs", "name": name, "source": m["what"],
-                                "what": "%s: upstream %s, downstream %s" % (m["what"], bad[0], bad[1])})
-        continue
-      if m.get("kind") == "ref" or (e_inf is None and e_stub is None):
-        if e_stub is not None:
-          n_cmp += 1
-          bad = compare(e_stub, g)
-          if bad:
-            res["issues"].append({"transport": tr, "kind": "type-differs", "name": name, "source": m["what"],
-                                  "what": "%s: upstream %s, downstream %s" % (m["what"], bad[0], bad[1])})
-        continue
-      n_cmp += 1
-      k = "inferred" if e_inf is not None else "declared"
-      res["kinds"][k] = res["kinds"].get(k, 0) + 1
-      ok_inf = e_inf is not None and same_def(e_inf, g)
-      ok_stub = e_stub is not None and same_def(e_stub, g)
-      if ok_inf:
-        continue
-      if ok_stub:
-        # B has exactly the declared type; A's context-sensitive analysis of the same expression found another
-        # one (e.g. a more precise result of an unannotated function): not the hand-off's doing
-        if e_inf is not None:
-          res["inferred_differs_from_declared"] += 1
-        continue
-      if m.get("constructed") and e_stub is None:
-        # the oracle built this value / chose the arguments and the stub gives no closed declared type to hold B
-        # to: A sees the concrete arguments (int for a float parameter, literal precision, ...) and may
-        # legitimately be narrower than what the signature promises B
-        res["undecided_constructed"] = res.get("undecided_constructed", 0) + 1
-        continue
-      want = [e_inf, e_stub]
-      kind = classify(name, m, want, g)
-      wtxt = " / ".join(("inferred " if i == 0 else "declared ") + show(w[1]) for i, w in enumerate(want) if w is not None)
-      gtxt = "<name missing from B's stub>" if g is None else \
-          "%s %s" % (g[0], show(g[1]) if g[0] in ("type", "alias") else g[1:])
-      res["issues"].append({"transport": tr, "kind": kind, "name": name, "source": m["what"],
-                            "what": "%s: upstream %s, downstream %s" % (m["what"], wtxt, gtxt)})
+    n_cmp = compare_names(res, list(meta), meta, exp, inferred, got, tainted, dropped, tr)
     res["n_expect"] = max(res["n_expect"], n_cmp)
+  # a second downstream module reads the members of A's module-level values in the REVERSE order (a conversion
+  # cached on a class by the first read must not leak into the reads through other instances)
+  rev = [n for n, m in meta.items() if m.get("parent") and not m.get("constructed") and n not in dropped]
+  if len(rev) >= 2:
+    src_b2 = "import A\n" + "".join("%s = %s\n" % (n, meta[n]["expr"]) for n in reversed(rev))
+    res["src_b_reversed"] = src_b2
+    for tr in transports:
+      try:
+        pyi2, errs2, _ = analyse_downstream(src_b2, workdir, tr)
+        got2 = downstream_defs(pyi2)
+      except pytype_utils.UsageError:
+        break
+      except Exception as e:  # pylint: disable=broad-except
+        res.update(status="violation", transport=tr, kind="crash",
+                   what="downstream analysis (reversed reads) raised %s: %s" % (type(e).__name__, str(e)[:300]),
+                   trace=traceback.format_exc()[-1500:])
+        return res
+      tainted2 = taint(errs2, src_b2, "", {n: {"parent": None} for n in rev}) | tainted_a
+      n_before = len(res["issues"])
+      compare_names(res, rev, meta, exp, inferred, got2, tainted2, dropped, tr, suffix=" [reversed reads]")
+      for i in res["issues"][n_before:]:
+        i["module"] = "reversed"
   other = [i for i in res["issues"] if i["kind"] not in KNOWN_KINDS]
   if other:
     res.update(status="violation", **{k: other[0][k] for k in ("transport", "kind", "name", "source", "what")})
+    if other[0].get("module") == "reversed":
+      res["src_b"] = res["src_b_reversed"]
     return res
   if len(set(stubs.values())) != 1:
     a = stubs[transports[0]]
